@@ -37,6 +37,148 @@ def absState (σ : State) : St :=
 end Falcon.Isa.Mips
 
 namespace Falcon.Isa.Mips
-/-- placeholder until the mirror is written -/
-def liftBTR (_big : Bool) (_ws : List Word) (_addr : Nat) : Option BTR := none
+
+/-! ### the mirror of the lifter (option (A)) -/
+
+def c32 (v : Nat) : Expr := .const ⟨32, v⟩
+def c1 (v : Nat) : Expr := .const ⟨1, v⟩
+/-- `MipsRegister::scalar` -/
+def rsc (i : Reg) : Scalar := { name := regName i, bits := 32 }
+/-- `MipsRegister::expression`: `$zero` is the constant 0 -/
+def rx (i : Reg) : Expr := if i = 0 then c32 0 else .scalar (rsc i)
+
+def bc : Scalar := { name := "branching_condition", bits := 1 }
+
+/-- `Scalar::temp(address, bits)`: `temp_0x<ADDRESS IN UPPER-CASE HEX>` -/
+def tempName (a : Nat) : String := "temp_0x" ++ String.ofList ((Nat.toDigits 16 a).map Char.toUpper)
+
+def mkIns (a : Nat) (k : Nat) (o : Op) : Falcon.Instr := { index := k, addr := some a, op := o }
+
+def mkBlock (a : Nat) (idx : Nat) (ops : List Op) : Block :=
+  { index := idx, nextInstr := ops.length, instrs := ops.zipIdx.map fun (o, k) => mkIns a k o }
+
+/-- an instruction graph: blocks `0, 1, …` with the given operations, edges, entry 0 -/
+def mkGraph (a : Nat) (blocks : List (List Op)) (edges : List Edge) (exit : Nat) : Function :=
+  { addr := a
+    cfg := { blocks := blocks.zipIdx.map fun (ops, i) => mkBlock a i ops
+             edges := edges, entry := some 0, exit := some exit, nextIndex := blocks.length } }
+
+/-- the one-block graph most instructions get -/
+def g1 (a : Nat) (ops : List Op) : Function := mkGraph a [ops] [] 0
+
+def not1 (e : Expr) : Expr := .bin .cmpeq e (c1 0)
+
+/-- head (nop) → `t` when `c`, `f` otherwise → empty tail: the shape of slt*, movn/movz -/
+def diamond (a : Nat) (c : Expr) (t f : List Op) : Function :=
+  mkGraph a [[.nop], t, f, []] [⟨0, 1, some c⟩, ⟨0, 2, some (not1 c)⟩, ⟨1, 3, none⟩, ⟨2, 3, none⟩] 3
+
+def sext16Nat (i : BitVec 16) : Nat := (i.signExtend 32).toNat
+
+def r3Expr (op : R3) (rs rt : Reg) : Option Expr :=
+  match op with
+  | .addu => some (if rt = 0 then rx rs else .bin .add (rx rs) (rx rt))      -- capstone: `move rd, rs`
+  | .or => some (if rt = 0 then rx rs else .bin .or (rx rs) (rx rt))         -- capstone: `move rd, rs`
+  | .subu => some (.bin .sub (rx rs) (rx rt))                                  -- rs = 0 is `negu`, the same IL
+  | .and => some (.bin .and (rx rs) (rx rt))
+  | .xor => some (.bin .xor (rx rs) (rx rt))
+  | .nor => if rt = 0 then none else some (.bin .xor (.bin .or (rx rs) (rx rt)) (c32 0xffffffff))   -- `not`: rejected
+  | _ => none
+
+def shOp : Sh → BinOp
+  | .sll => .shl | .srl => .shr | .sra => .ashr
+
+def immExpr (op : Imm) (rs : Reg) (i : BitVec 16) : Expr :=
+  match op with
+  | .addiu => .bin .add (rx rs) (c32 (sext16Nat i))
+  | .slti => .bin .cmplts (rx rs) (c32 (sext16Nat i))
+  | .sltiu => .bin .cmpltu (rx rs) (c32 (sext16Nat i))
+  | .andi => .bin .and (rx rs) (c32 i.toNat)
+  | .ori => .bin .or (rx rs) (c32 i.toNat)
+  | .xori => .bin .xor (rx rs) (c32 i.toNat)
+
+def eaExpr (base : Reg) (off : BitVec 16) : Expr := .bin .add (rx base) (c32 (sext16Nat off))
+
+/-- the graph of one non-branch instruction at address `a`; `none`: not mirrored (or rejected by the dispatcher) -/
+def liftI (i : Instr) (a : Nat) : Option Function :=
+  match i with
+  | .r3 .slt rd rs rt => some (diamond a (.bin .cmplts (rx rs) (rx rt)) [.assign (rsc rd) (c32 1)] [.assign (rsc rd) (c32 0)])
+  | .r3 .sltu rd rs rt => some (diamond a (.bin .cmpltu (rx rs) (rx rt)) [.assign (rsc rd) (c32 1)] [.assign (rsc rd) (c32 0)])
+  | .r3 op rd rs rt => (r3Expr op rs rt).map fun e => g1 a [.assign (rsc rd) e]
+  | .shi op rd rt sa =>
+    if op = .sll ∧ rd = 0 ∧ rt = 0 then (if sa = 0 then some (g1 a [.nop]) else none)     -- nop; ssnop/ehb/pause: rejected
+    else some (g1 a [.assign (rsc rd) (.bin (shOp op) (rx rt) (c32 sa.toNat))])
+  | .shv op rd rt rs => some (g1 a [.assign (rsc rd) (.bin (shOp op) (rx rt) (.bin .and (rx rs) (c32 0x1f)))])
+  | .imm .slti rt rs i => some (diamond a (immExpr .slti rs i) [.assign (rsc rt) (c32 1)] [.assign (rsc rt) (c32 0)])
+  | .imm .sltiu rt rs i => some (diamond a (immExpr .sltiu rs i) [.assign (rsc rt) (c32 1)] [.assign (rsc rt) (c32 0)])
+  | .imm op rt rs i => some (g1 a [.assign (rsc rt) (immExpr op rs i)])
+  | .lui rt i => some (g1 a [.assign (rsc rt) (c32 (i.toNat * 65536))])
+  | .load op rt base off =>
+    let t8 : Scalar := { name := tempName a, bits := 8 }
+    let t16 : Scalar := { name := tempName a, bits := 16 }
+    match op with
+    | .lb => some (g1 a [.load t8 (eaExpr base off), .assign (rsc rt) (.ext .sext 32 (.scalar t8))])
+    | .lbu => some (g1 a [.load t8 (eaExpr base off), .assign (rsc rt) (.ext .zext 32 (.scalar t8))])
+    | .lh => some (g1 a [.load t16 (eaExpr base off), .assign (rsc rt) (.ext .sext 32 (.scalar t16))])
+    | .lhu => some (g1 a [.load t16 (eaExpr base off), .assign (rsc rt) (.ext .zext 32 (.scalar t16))])
+    | .lw => some (g1 a [.load (rsc rt) (eaExpr base off)])
+    | _ => none
+  | .store op rt base off =>
+    match op with
+    | .sb => some (g1 a [.store (eaExpr base off) (.ext .trun 8 (rx rt))])
+    | .sh => some (g1 a [.store (eaExpr base off) (.ext .trun 16 (rx rt))])
+    | .sw => some (g1 a [.store (eaExpr base off) (rx rt)])
+    | _ => none
+  | _ => none
+
+/-- the condition latched by a conditional branch, `none` for the unconditional forms -/
+def brCond : Instr → Option (Option Expr)
+  | .br2 .beq rs rt _ => some (if rs = 0 ∧ rt = 0 then none else some (.bin .cmpeq (rx rs) (rx rt)))     -- `b`
+  | .br2 .bne rs rt _ => some (some (.bin .cmpneq (rx rs) (rx rt)))
+  | .br1 .bgez rs _ => some (some (.bin .cmpeq (.bin .cmplts (rx rs) (c32 0)) (c1 0)))
+  | .br1 .bgtz rs _ => some (some (.bin .cmplts (c32 0) (rx rs)))
+  | .br1 .blez rs _ => some (some (.bin .or (.bin .cmplts (rx rs) (c32 0)) (.bin .cmpeq (rx rs) (c32 0))))
+  | .br1 .bltz rs _ => some (some (.bin .cmplts (rx rs) (c32 0)))
+  | .j _ => some none
+  | _ => none
+
+def brTarget (pc : Word) : Instr → Option Nat
+  | .br2 _ _ _ off | .br1 _ _ off => some (relTarget pc off).toNat
+  | .j idx => some (absTarget pc idx).toNat
+  | _ => none
+
+/-- the `BlockTranslationResult` of one non-branch instruction -/
+def liftSingle (i : Instr) (addr : Nat) : Option BTR :=
+  if i.isBranch then none
+  else (liftI i addr).map fun f => { addr := addr, length := 4, instrs := [f], succs := [(addr + 4, none)] }
+
+/-- the (empty) graph a direct branch leaves behind its delay slot, addressed `branch address + 1` -/
+def tailGraph (addr : Nat) : Function := mkGraph (addr + 1) [[]] [] 0
+
+/-- the `BlockTranslationResult` of a branch `b` at `addr` with `d` in its delay slot:
+    `[nop | branching_condition := cond] @addr`, the slot's graph `@addr+4`, the branch's own graph `@addr+1` -/
+def liftPair (b d : Instr) (addr : Nat) : Option BTR :=
+  if d.isBranch then none
+  else
+    match liftI d (addr + 4) with
+    | none => none
+    | some slot =>
+      match b with
+      | .jr rs =>
+        some { addr := addr, length := 4, instrs := [g1 addr [.nop], slot, g1 (addr + 1) [.branch (rx rs)]], succs := [] }
+      | _ =>
+        match brCond b, brTarget (BitVec.ofNat 32 addr) b with
+        | some none, some t =>
+          some { addr := addr, length := 4, instrs := [g1 addr [.nop], slot, tailGraph addr], succs := [(t, none)] }
+        | some (some c), some t =>
+          some { addr := addr, length := 4, instrs := [g1 addr [.assign bc c], slot, tailGraph addr],
+                 succs := [(t, some (.scalar bc)), (addr + 8, some (not1 (.scalar bc)))] }
+        | _, _ => none
+
+/-- the `BlockTranslationResult` for one instruction word, or for a branch word and its delay-slot word -/
+def liftBTR (_big : Bool) (ws : List Word) (addr : Nat) : Option BTR :=
+  match ws with
+  | [w] => (decode w).bind fun i => liftSingle i addr
+  | [wb, wd] => (decode wb).bind fun b => (decode wd).bind fun d => liftPair b d addr
+  | _ => none
+
 end Falcon.Isa.Mips
